@@ -530,6 +530,7 @@ func runC06(c any, x *kit.Ctx) {
 func genC06(tier string, emit func(any)) {
 	cfgs := []drv.Opts{
 		{}, {DataPad: 3, IndexPad: 2, Codec: "sorted"}, {V1: true}, {StoreID: true}, {ZeroEOF: true}, {DataPad: 3}, {IndexPad: 2, StoreID: true, Codec: "sorted"},
+		{DataPad: 1413}, // padding larger than payload + index: offsets relative to the payload and to the file differ by more than the file length
 	}
 	sessions := [][]string{
 		{}, {"F"}, {"put:a"}, {"put:a", "F"}, {"put:a", "put:b"}, {"put:a", "put:b", "F"}, {"put:e", "put:a", "F"},
@@ -605,10 +606,10 @@ func init() {
 		Gen:    genC06,
 		Run:    runC06,
 		Decode: kit.DecodeAs[C06Case],
-		Rule: "for every writing session of the bound (open, puts incl. payloads > 255 and > 65535 bytes, duplicates, finalize) x 7 option configurations x {blockstore.OpenReadWriteFile, storage.New/OpenReadableWritable}, and for second-generation sessions that resume a first one: the REAL write order is recorded through the build-tag write seam plus file diffing (pragma, Truncate); " +
+		Rule: "for every writing session of the bound (open, puts incl. payloads > 255 and > 65535 bytes, duplicates, finalize) x 8 option configurations x {blockstore.OpenReadWriteFile, storage.New/OpenReadableWritable}, and for second-generation sessions that resume a first one: the REAL write order is recorded through the build-tag write seam plus file diffing (pragma, Truncate); " +
 			"EVERY crash image = every prefix of the log with the next write torn at every length (all lengths for writes <= 64 bytes, {1,2,mid,len-2,len-1} for larger data writes in quick, all in thorough) is reopened and judged; non-trivial = image with a torn write",
 		Bound: func(tier string) map[string]any {
-			return map[string]any{"puts_per_session": "<=3 (quick) / <=3 plus more orders (thorough)", "generations": 2, "torn_lengths": "all for writes <=64B; 5 per larger write (quick) / all (thorough)", "configurations": 7}
+			return map[string]any{"puts_per_session": "<=3 (quick) / <=3 plus more orders (thorough)", "generations": 2, "torn_lengths": "all for writes <=64B; 5 per larger write (quick) / all (thorough)", "configurations": 8}
 		},
 		Assumptions: []string{"crash model = the property's: a prefix of the issued writes with the last one torn (the library issues no syncs, so no reordering dimension)", "a torn write past EOF extends the file only up to the torn length"},
 	})
